@@ -164,7 +164,8 @@ const (
 
 // HasCycle
 func (t *TaskNode) HasCycle() (cycleStart *TaskNode) {
-	visited, incomplete := map[string]struct{}{}, map[string]*TaskNode{}
+	// keyed by node, not by id: a task may carry the id of the virtual root
+	visited, incomplete := map[*TaskNode]struct{}{}, map[*TaskNode]*TaskNode{}
 	waitQueue := []*TaskNode{t}
 	bfsCheckCycle(waitQueue, visited, incomplete)
 	if len(incomplete) > 0 {
@@ -175,7 +176,7 @@ func (t *TaskNode) HasCycle() (cycleStart *TaskNode) {
 	return
 }
 
-func bfsCheckCycle(waitQueue []*TaskNode, visited map[string]struct{}, incomplete map[string]*TaskNode) {
+func bfsCheckCycle(waitQueue []*TaskNode, visited map[*TaskNode]struct{}, incomplete map[*TaskNode]*TaskNode) {
 	queueLen := len(waitQueue)
 	if queueLen == 0 {
 		return
@@ -183,7 +184,7 @@ func bfsCheckCycle(waitQueue []*TaskNode, visited map[string]struct{}, incomplet
 
 	isParentCompleted := func(node *TaskNode) bool {
 		for _, p := range node.parents {
-			if _, ok := visited[p.TaskInsID]; !ok {
+			if _, ok := visited[p]; !ok {
 				return false
 			}
 		}
@@ -193,11 +194,11 @@ func bfsCheckCycle(waitQueue []*TaskNode, visited map[string]struct{}, incomplet
 	for i := 0; i < queueLen; i++ {
 		cur := waitQueue[i]
 		if !isParentCompleted(cur) {
-			incomplete[cur.TaskInsID] = cur
+			incomplete[cur] = cur
 			continue
 		}
-		visited[cur.TaskInsID] = struct{}{}
-		delete(incomplete, cur.TaskInsID)
+		visited[cur] = struct{}{}
+		delete(incomplete, cur)
 		for _, c := range cur.children {
 			waitQueue = append(waitQueue, c)
 		}
